@@ -346,7 +346,23 @@ func runC15(t *simrt.Tape, o Opts) Outcome {
 				ref.admit(key)
 			case c15Get:
 				prog = append(prog, fmt.Sprintf("Get(%s)", key))
-				v, ok := c.Get(key)
+				var v int
+				var ok bool
+				if !swept && t.Choose(4, "get.or-panic") == 1 {
+					// GetOrPanic: a miss is a panic the caller recovers from; the cache stays usable
+					prog[len(prog)-1] = fmt.Sprintf("GetOrPanic(%s)", key)
+					ok = true
+					func() {
+						defer func() {
+							if r := recover(); r != nil {
+								ok = false
+							}
+						}()
+						v = c.GetOrPanic(key)
+					}()
+				} else {
+					v, ok = c.Get(key)
+				}
 				count(st.Oracle, "get")
 				mv, present := ref.vals[key]
 				if ref.closed {
